@@ -572,3 +572,81 @@ def gen_text(rng, sm, faults=None, **kw):
         tg.rate = faults * 1.0 / max(4, dry.sites)
         return tg.text()
     return TextGen(rng, sm, 0, **kw).text()
+
+
+# ------------------------------------------------------------------ text surgery (C06, C08, C15)
+
+
+def line_depths(lines):
+    """Nesting depth before each line and after the last (unclassifiable lines are neutral)."""
+    from zcv import model
+    d = 0
+    out = []
+    for l in lines:
+        out.append(d)
+        try:
+            ev = model.classify_line(l)
+        except model.SyntaxReject:
+            continue
+        if ev[0] == "open" and not ev[3]:
+            d += 1
+        elif ev[0] == "close":
+            d -= 1
+    out.append(d)
+    return out
+
+
+def balanced_ranges(lines):
+    """All (i, j), i < j, such that lines[i:j] is balanced w.r.t. section nesting."""
+    dep = line_depths(lines)
+    res = []
+    n = len(lines)
+    for i in range(n):
+        base = dep[i]
+        for j in range(i + 1, n + 1):
+            if dep[j] < base:
+                break
+            if dep[j] == base and min(dep[i:j + 1]) >= base:
+                res.append((i, j))
+    return res
+
+
+def cut_includes(rng, text, main_url, ncuts=None, places=("", "sub/", "../")):
+    """Move 1..3 balanced line ranges (nested cuts allowed) into separate resources.
+
+    -> (resources dict url->text, list of (url, included_url)).  Relative names are resolved
+    against the including resource; with 'sub/' and '../' placements the main URL must have at
+    least one directory level below the root.
+    """
+    from zcv import model
+    resources = {main_url: text}
+    if ncuts is None:
+        ncuts = rng.choice([1, 1, 2, 3])
+    made = []
+    for k in range(ncuts):
+        url = rng.choice(sorted(resources))
+        lines = resources[url].split("\n")
+        if lines and lines[-1] == "":
+            lines.pop()
+        ranges = balanced_ranges(lines)
+        if not ranges:
+            continue
+        i, j = rng.choice(ranges)
+        place = rng.choice(places)
+        name = "%sinc%d.conf" % (place, len(resources))
+        target = model.url_join(url, name)
+        if target in resources:
+            continue
+        frag = lines[i:j]
+        if place and any(l.strip().startswith("%include") for l in frag):
+            place = ""
+            name = "inc%d.conf" % len(resources)
+            target = model.url_join(url, name)
+            if target in resources:
+                continue
+        indent = rng.choice(["", "  ", "\t"])
+        newlines = lines[:i] + ["%s%%include %s" % (indent, name)] + lines[j:]
+        resources[url] = "".join(l + "\n" for l in newlines)
+        resources[target] = "".join(l + "\n" for l in frag)
+        made.append((url, target, i, j))
+    return resources, made
